@@ -80,10 +80,10 @@ fn run_stream<H: BuildHasher + Default + Clone>(a: &Args, sink: &mut Sink) -> se
             pattern_stream::<H>(sink, kinds, len, v, stride);
             extra = serde_json::json!({"pattern_len": len, "values": v, "stride": stride, "exhaustive": stride == 1});
         }
-        "iters_mut" => { let l = if thorough { 7 } else { 5 }; iter_stream::<H>(sink, &both, 4, l, &["iter_mut"]); extra = serde_json::json!({"exhaustive": true, "max_calls": l, "max_size": 4}); }
-        "iters_plain" => { let l = if thorough { 6 } else { 4 }; iter_stream::<H>(sink, &both, 4, l, &["iter", "into_iter", "drain"]); extra = serde_json::json!({"exhaustive": true, "max_calls": l, "max_size": 4}); }
-        "iters_sorted" => { let l = if thorough { 7 } else { 5 }; iter_stream::<H>(sink, &both, 5, l, &["sorted_iter"]); extra = serde_json::json!({"exhaustive": true, "max_calls": l, "max_size": 5}); }
-        "iters_drain" => { let l = if thorough { 6 } else { 4 }; iter_stream::<H>(sink, &both, 4, l, &["drain"]); extra = serde_json::json!({"exhaustive": true, "max_calls": l, "max_size": 4}); }
+        "iters_mut" => { let l = if thorough { 5 } else { 4 }; iter_stream::<H>(sink, &both, 4, l, &["iter_mut"]); extra = serde_json::json!({"exhaustive": true, "max_calls": l, "max_size": 4}); }
+        "iters_plain" => { let l = if thorough { 5 } else { 3 }; iter_stream::<H>(sink, &both, 4, l, &["iter", "into_iter", "drain"]); extra = serde_json::json!({"exhaustive": true, "max_calls": l, "max_size": 4}); }
+        "iters_sorted" => { let l = if thorough { 5 } else { 4 }; iter_stream::<H>(sink, &both, 5, l, &["sorted_iter"]); extra = serde_json::json!({"exhaustive": true, "max_calls": l, "max_size": 5}); }
+        "iters_drain" => { let l = if thorough { 5 } else { 4 }; iter_stream::<H>(sink, &both, 4, l, &["drain"]); extra = serde_json::json!({"exhaustive": true, "max_calls": l, "max_size": 4}); }
         "bulk" => bulk_stream::<H>(sink, &mut rng, &both, if thorough { 8000 } else { 700 }),
         "large" => {
             let sizes: Vec<u64> = if thorough { vec![1, 2, 3, 7, 8, 100, 1023, 1024, 2048, 4096] } else { vec![1, 2, 3, 8, 100, 511, 1024] };
